@@ -822,6 +822,42 @@ func (e *Exec) expectedSeq(ts *treeState, s *Step) []entry {
 func (e *Exec) doSeq(i int, s *Step, ts *treeState) *Violation {
 	api := ts.api
 	seq := api.Seq(s.Op, s.K, s.K2, kOf(s.N))
+	// nothing says when a sequence is consumed: between obtaining it and ranging
+	// over it the caller may make other read-only calls and obtain other sequences
+	// (fresh key buffers, so this is not C13's buffer-reuse scenario)
+	if m := ts.m; m.Len() > 0 && !(ts.cfg.Shared && e.inRace) {
+		saved := -1
+		if b := api.Buf(); b != nil {
+			saved = b.layout
+			b.layout = layExact
+		}
+		lo, hi := m.es[0].orig, m.es[m.Len()-1].orig
+		api.Search(hi)
+		switch s.Op {
+		case "range":
+			_ = api.Seq("range", lo, m.es[m.Len()/2].orig, 0)
+		case "prefix":
+			_ = api.Seq("prefix", hi, nil, 0)
+		case "topk", "botk":
+			_ = api.Seq(s.Op, nil, nil, 1)
+		}
+		api.Search(lo)
+		if b := api.Buf(); b != nil {
+			// the decoy buffers are not part of this call's C13 bookkeeping
+			n := 1
+			if s.Op == "range" {
+				n = 2
+			}
+			if s.Op == "all" || s.Op == "back" || s.Op == "topk" || s.Op == "botk" {
+				n = 0
+			}
+			if len(b.pend) > n {
+				b.pend = b.pend[:n]
+			}
+			b.layout = saved
+		}
+		e.st.Probes["decoy_calls_before_first_pass"]++
+	}
 	var full []pair
 	if e.or&oVal != 0 && s.N > 0 {
 		// C18: the consumer forces a collection (and reuses the freed memory) in the
@@ -1022,6 +1058,21 @@ func (e *Exec) checkExtremes(i, ti int, ts *treeState) *Violation {
 			return
 		}
 		n := ts.m.Len()
+		if n > 1 {
+			// a consumer that leaves a TopK/BottomK loop early must not affect the next one
+			for _, op := range []string{"botk", "topk"} {
+				cnt := 0
+				ts.api.Seq(op, nil, nil, uint(n))(func([]byte, uint64, bool) bool { cnt++; return cnt < 1+n/2 })
+				// ... and the very next one asks for more than there is
+				st := Step{Op: op, N: n + 7}
+				got := collectSeq(ts.api.Seq(op, nil, nil, uint(n+7)))
+				if err := e.compareSeq(ts, fmt.Sprintf("%s(%d) right after an abandoned %s loop", op, n+7, op), got, e.expectedSeq(ts, &st)); err != nil {
+					v = e.viol("wrong-result", "C05-"+op+"-after-early-break", i, "tree %d (%s): %v", ti, ts.cfg.Key, err)
+					return
+				}
+			}
+			e.st.Probes["extremes_after_early_break"]++
+		}
 		for _, k := range []int{0, 1, n - 1, n, n + 1, n + 7, -1, -2, -3} {
 			if k == n-1 && k < 0 {
 				continue // n == 0: there is no "size-1"
